@@ -298,7 +298,8 @@ def run(run):
         from pybufrkit.tables import normalize_tables_sn
         import logging
         logging.disable(logging.CRITICAL)
-        for rec in res.iter_emitted():
+        sel_recs = list(res.iter_emitted())
+        for rec in sel_recs:
             q, n = rec['q'], rec['n']
             run.traces += 1
             w, l = normalize_tables_sn(TROOT, q['m'], q['c'], q['s'], q['v'] or 33, q['l'])
@@ -308,6 +309,39 @@ def run(run):
                               'identification %r selects %r, documented rule %r' % (q, got, n), {'kind': 'select', 'q': q})
             elif n['wmo'][2] != q['v'] or (q['l'] and n['loc'] and n['loc'][1] != '%d_%d' % (q['c'], q['s'])):
                 run.nontriv(('sel', q['m'], q['c'], q['s'], q['v'], q['l']))
+        # the selection is made per tables root: a second root that holds only two WMO versions is asked first (through
+        # get_table_group, the entry point coders use), then the bundled root - the same identification selects different tables
+        from pybufrkit.tables import TableGroupCacheManager
+        root2 = os.path.join(wd, 'troot2')
+        os.makedirs(os.path.join(root2, '0', '0_0'))
+        for v in (25, 33):
+            os.symlink(os.path.join(TROOT, '0', '0_0', str(v)), os.path.join(root2, '0', '0_0', str(v)))
+        dirs2 = [[0, '0_0', 25], [0, '0_0', 33]]
+        qs2 = [{'m': 0, 'c': c, 's': 0, 'v': v, 'l': l} for c in (0, 98) for v in (13, 25, 33, 41) for l in (0, 1)]
+        sc2 = {'Masters': fm94.tla_set([0]), 'Dirs': '{' + ', '.join(tlc.tla_val(d) for d in dirs2) + '}', 'Qs': '{' + ', '.join(tlc.tla_val(q) for q in qs2) + '}'}
+        res2 = tlc.run(wd, 'MC_Sel2', tlc.mc_cfg(sc2, invariants=['SelectedExists', 'ExactHitIsKept', 'NoLocalWhenZero', 'Emit']), tlc.mc_module('MC_Sel2', ['TableSel'], sc2),
+                       coverage=False, lazy_emitted=True)
+        tlc.require_ok(res2, 'TableSel (second root)')
+        run.add_tlc(res2, 'TableSel: %d identification tuples over a tables root with two versions' % len(qs2))
+        want2 = {json.dumps(r['q'], sort_keys=True): r['n'] for r in res2.iter_emitted()}
+        want1 = {json.dumps(r['q'], sort_keys=True): r['n'] for r in sel_recs}
+        for root, want, tag in ((root2, want2, 'second-root'), (TROOT, want1, 'bundled-root-after-second')):
+            for q in qs2:
+                k = json.dumps(q, sort_keys=True)
+                if k not in want:
+                    continue
+                run.traces += 1
+                try:
+                    g = TableGroupCacheManager.get_table_group(root, q['m'], q['c'], q['s'], q['v'], q['l'])
+                    w, l = g.key.wmo_tables_sn, g.key.local_tables_sn
+                    got = {'wmo': [int(w[0]), w[1], int(w[2])], 'loc': [int(l[0]), l[1], int(l[2])] if l else []}
+                except Exception as e:
+                    got = 'exception %s' % type(e).__name__
+                if got != want[k]:
+                    run.violation(('select', 'tables', 'differ', tag), 'identification %r under %s selects %r, documented rule %r' % (q, tag, got, want[k]),
+                                  {'kind': 'select-root', 'q': q, 'root': tag})
+                    break
+                run.nontriv(('sel2', tag, k))
         logging.disable(logging.NOTSET)
         # ---------------- an undefined descriptor is an error, not skipped
         from pybufrkit.decoder import Decoder
